@@ -14,6 +14,7 @@ import (
 	"fmt"
 	"sort"
 	"strings"
+	"net/url"
 	"testing"
 	"time"
 )
@@ -71,7 +72,7 @@ type hdOp struct {
 	O int `json:"o,omitempty"`
 
 	// room API
-	Api    string     `json:"api,omitempty"` // delete, disinvite, update, participants, incall, incallall, message, dialout (Tag: 0 well-formed, 1 number not E.164, 2 room id not numeric, 3 no number)
+	Api    string     `json:"api,omitempty"` // delete, disinvite, update, participants, incall, incallall, message, dialout (Tag: 0 well-formed, 1 number not E.164, 2 room id not numeric, 3 no number), transient (published on the bus), transienthttp (over HTTP: refused)
 	SignAs int        `json:"signas,omitempty"`
 	Users  []hdApiUser `json:"users,omitempty"`
 	InCall int        `json:"incall,omitempty"`
@@ -89,8 +90,9 @@ type hdOp struct {
 	Media  int    `json:"media,omitempty"`  // bit 1 audio, bit 2 video m-lines in the offer SDP
 	Res    string `json:"res,omitempty"`    // mcudone: ok, fail
 
-	// transient
-	Tk  string `json:"tk,omitempty"` // set, remove
+	// transient: client message (Tk = set, remove, or anything else = a type the server does not know; Tag = value,
+	// 0 = a set without value) and the room request "transient" (K = api, Api = transient: Tk = set / delete)
+	Tk  string `json:"tk,omitempty"`
 	Key int    `json:"key,omitempty"`
 
 	// deliver
@@ -642,6 +644,9 @@ func (r *hdRun) exec(o *hdOp) string {
 			}
 			return l, coqList(terms)
 		}
+		if o.Api == "transient" || o.Api == "transienthttp" {
+			return r.execApiTransient(o)
+		}
 		switch o.Api {
 		case "delete":
 			body = map[string]interface{}{"type": "delete", "delete": map[string]interface{}{"userids": []string{}}}
@@ -794,14 +799,18 @@ func (r *hdRun) exec(o *hdOp) string {
 		if c == nil {
 			return ""
 		}
-		inner := map[string]interface{}{"type": o.Tk, "key": fmt.Sprintf("k%d", o.Key)}
-		if o.Tk == "set" {
-			inner["value"] = o.Tag
+		inner := map[string]interface{}{"type": o.Tk, "key": hdTransientKey(o.Key)}
+		if o.Tk == "set" && o.Tag > 0 {
+			// Tag = 0: a set without value (the server removes the key)
+			inner["value"] = hdTransientValue(o.Tag)
 		}
 		data, _ := json.Marshal(map[string]interface{}{"id": "t", "type": "transient", "transient": inner})
 		s.sendSync(c, data)
-		tk := 0
-		if o.Tk == "remove" {
+		tk := 2
+		switch o.Tk {
+		case "set":
+			tk = 0
+		case "remove":
 			tk = 1
 		}
 		return fmt.Sprintf("OTransient %d %d %d %d", o.C, tk, o.Key, o.Tag)
@@ -829,6 +838,102 @@ func (r *hdRun) exec(o *hdOp) string {
 		return ""
 	}
 	return ""
+}
+
+// ---- transient data ----------------------------------------------------------------
+
+func hdTransientKey(k int) string   { return fmt.Sprintf("k%d", k) }
+func hdTransientValue(v int) string { return fmt.Sprintf("v%d", v) }
+
+func hdTransientKeyNum(k string) int {
+	var n int
+	if _, err := fmt.Sscanf(k, "k%d", &n); err == nil && hdTransientKey(n) == k {
+		return n
+	}
+	return 999
+}
+
+// hdTransientValueNum maps a value as the server holds it (json.RawMessage from a client, decoded JSON from the bus)
+// or as a client reads it (decoded JSON) back to its number.
+func hdTransientValueNum(v interface{}) int {
+	var str string
+	switch x := v.(type) {
+	case string:
+		str = x
+	case json.RawMessage:
+		if err := json.Unmarshal(x, &str); err != nil {
+			return 998
+		}
+	case *json.RawMessage:
+		if x == nil || json.Unmarshal(*x, &str) != nil {
+			return 998
+		}
+	default:
+		return 997
+	}
+	var n int
+	if _, err := fmt.Sscanf(str, "v%d", &n); err == nil && hdTransientValue(n) == str {
+		return n
+	}
+	return 999
+}
+
+func hdTransientDataTerm(data map[string]interface{}) string {
+	type kv struct{ k, v int }
+	var l []kv
+	for k, v := range data {
+		l = append(l, kv{hdTransientKeyNum(k), hdTransientValueNum(v)})
+	}
+	sort.Slice(l, func(i, j int) bool { return l[i].k < l[j].k })
+	var terms []string
+	for _, e := range l {
+		terms = append(terms, fmt.Sprintf("(%d, %d)", e.k, e.v))
+	}
+	return coqList(terms)
+}
+
+// execApiTransient: the room request "transient".  It is not a request type of the HTTP room API (Api =
+// transienthttp sends it there: 400, nothing happens, no model step); the server publishes it itself on the room's
+// backend subject for a dial-out status (hub.go), and it arrives the same way from another server of a cluster.  The
+// driver publishes it exactly like hub.go does (no receive time, no time-to-live), through the hub's AsyncEvents -
+// the harness bus, so its delivery is scheduled like that of every other room request.
+func (r *hdRun) execApiTransient(o *hdOp) string {
+	s := r.sys
+	action := TransientActionSet
+	if o.Tk == "delete" || o.Tk == "remove" {
+		action = TransientActionDelete
+	}
+	req := &BackendRoomTransientRequest{Action: action, Key: hdTransientKey(o.Key)}
+	if action == TransientActionSet && o.Tag > 0 {
+		req.Value = hdTransientValue(o.Tag)
+	}
+	if o.Api == "transienthttp" {
+		body, _ := json.Marshal(map[string]interface{}{"type": "transient", "transient": req})
+		status := s.roomApi(o.B, o.SignAs, hdRoom(o.R), body)
+		r.notes = append(r.notes, fmt.Sprintf("api transient over http: status %d", status))
+		if status == 200 {
+			r.notes = append(r.notes, "unknown: the room API accepted a transient request")
+		}
+		return ""
+	}
+	term := fmt.Sprintf("OApi %d %d %d (ATransient %s %d %d)", o.B, o.SignAs, o.R, coqBool(action == TransientActionDelete), o.Key, o.Tag)
+	if o.SignAs != o.B || o.B < 0 || o.B >= s.nb {
+		// not a request of that backend: nothing is published (the model's OApi does nothing either)
+		return term
+	}
+	u, err := url.Parse(s.backendUrl(o.B))
+	if err != nil {
+		return ""
+	}
+	backend := s.hub.backend.GetBackend(u)
+	if backend == nil {
+		return ""
+	}
+	msg := &AsyncMessage{Type: "room", Room: &BackendServerRoomRequest{Type: "transient", Transient: req}}
+	if err := s.hub.events.PublishBackendRoomMessage(hdRoom(o.R), backend, msg); err != nil {
+		r.notes = append(r.notes, "unknown: publish failed: "+err.Error())
+	}
+	return term
 }
 
 // ---- projection of what clients received ----------------------------------------
@@ -1043,15 +1148,23 @@ func (r *hdRun) project(conn int, data []byte) string {
 		if m.TransientData == nil {
 			return "(SOther 9)"
 		}
-		k := 0
-		fmt.Sscanf(m.TransientData.Key, "k%d", &k) // nolint
-		switch m.TransientData.Type {
+		td := m.TransientData
+		opt := func(v interface{}) string {
+			if v == nil {
+				return "None"
+			}
+			return fmt.Sprintf("(Some %d)", hdTransientValueNum(v))
+		}
+		switch td.Type {
 		case "initial":
-			return "(STransient 0 0)"
+			return "(STransient (TInit " + hdTransientDataTerm(td.Data) + "))"
 		case "set":
-			return fmt.Sprintf("(STransient 1 %d)", k)
+			if td.Value == nil {
+				return "(SOther 14)"
+			}
+			return fmt.Sprintf("(STransient (TSet %d %d %s))", hdTransientKeyNum(td.Key), hdTransientValueNum(td.Value), opt(td.OldValue))
 		case "remove":
-			return fmt.Sprintf("(STransient 2 %d)", k)
+			return fmt.Sprintf("(STransient (TRemove %d %s))", hdTransientKeyNum(td.Key), opt(td.OldValue))
 		}
 		return "(SOther 10)"
 	}
@@ -1181,7 +1294,7 @@ func (r *hdRun) digestTerm() string {
 		sess = append(sess, fmt.Sprintf("(mksd %d %d %d %d %d %s %d %s %s %s %d %d %d %s %d %d)", x.Sid, x.Backend, kindNum[x.Kind], hdUserNum(x.User), hdUserNum(x.AuthUser),
 			roomKey(x.Room), rs, conn, coqBool(x.InCall), perms, pubs, len(x.Subs), x.Pending, coqBool(x.Counted), x.Parent, x.PubMedia))
 	}
-	var rooms []string
+	var rooms, tdata []string
 	for _, x := range d.Rooms {
 		var b, rn int
 		fmt.Sscanf(x.Key, "backend%d|room%d", &b, &rn) // nolint
@@ -1193,6 +1306,7 @@ func (r *hdRun) digestTerm() string {
 			ic = append(ic, fmt.Sprintf("%d", m))
 		}
 		rooms = append(rooms, fmt.Sprintf("((%d, %d), %s, %s)", b, rn, coqList(ms), coqList(ic)))
+		tdata = append(tdata, fmt.Sprintf("((%d, %d), %s)", b, rn, hdTransientDataTerm(x.Transient)))
 	}
 	nums := func(l []uint64) string {
 		var t []string
@@ -1243,9 +1357,9 @@ func (r *hdRun) digestTerm() string {
 	for _, n := range d.Counts {
 		counts = append(counts, fmt.Sprintf("%d", n))
 	}
-	return fmt.Sprintf("(mkdigest %s %s %s %s %s %s %s %s %s %d %d %d %d %d %d %d %s)", coqList(sess), coqList(rooms), coqList(rs1), coqList(rs2), coqList(vt),
+	return fmt.Sprintf("(mkdigest %s %s %s %s %s %s %s %s %s %d %d %d %d %d %d %d %s %s)", coqList(sess), coqList(rooms), coqList(rs1), coqList(rs2), coqList(vt),
 		nums(d.Expired), nums(d.Anonymous), nums(d.Dialout), nums(d.Clients), d.ExpectHello,
-		kinds["backend"], kinds["room"], kinds["user"], kinds["session"], len(d.McuOpen), d.McuPending, coqList(counts))
+		kinds["backend"], kinds["room"], kinds["user"], kinds["session"], len(d.McuOpen), d.McuPending, coqList(counts), coqList(tdata))
 }
 
 // runCase executes a case and returns the Coq term of its trace.
